@@ -444,3 +444,74 @@ let run_prefetchgrp (parts : string list) : string =
   out ^ (if !worst <= 1 then " || spec=ok" else Printf.sprintf " || spec=FAIL:%d-refreshes-hold-one-key" !worst)
 
 let () = register "prefetchgrp" run_prefetchgrp
+
+(* ---------- kind prefetchcost (limiter x prefetch): the model's charges for the scripted run of
+   harness/cmd/implrun/c19_cost.go (Router/PrefetchCost.v: pco_run with fwd = false, one event list per op), same
+   canonical string; spec = the executable form of C19_cost_own_requests_only / C19_cost_formula on this run: the
+   buckets after the run with its refreshes = the buckets after the run without them = burst - pco_total ---------- *)
+let run_prefetchcost (parts : string list) : string =
+  let f = fields parts in
+  let burst = ifld f "burst" and glob = fld f "glob" = "1" in
+  let cls = Array.of_list (String.split_on_char '+' (fld f "cl")) in
+  let split_cl s = match String.index_opt s '@' with
+    | Some i -> (String.sub s 0 i, String.sub s (i + 1) (String.length s - i - 1))
+    | None -> failwith "bad client" in
+  let starts p s = String.length s >= String.length p && String.sub s 0 (String.length p) = p in
+  let listener l =
+    if l = "udp" then PcoUdp else if l = "tcp" then PcoTcp else if l = "gnet" then PcoGnet
+    else if starts "fasthttp" l then PcoFast else if starts "http" l then PcoHttp else failwith "bad listener" in
+  (* bucket ids: one per distinct address text *)
+  let ids : (string * int) list ref = ref [] in
+  let bucket a = match List.assoc_opt a !ids with
+    | Some i -> i
+    | None -> let i = 1 + List.length !ids in ids := !ids @ [(a, i)]; i in
+  let client_addr s = let (l, a) = split_cl s in
+    match listener l with
+    | PcoHttp | PcoFast -> if a = "-" then None else Some a
+    | _ -> Some "127.0.0.1" in
+  (* register buckets in the order the harness prints them *)
+  Array.iter (fun s -> match client_addr s with Some a -> ignore (bucket a) | None -> ()) cls;
+  ignore (bucket "127.0.0.1");
+  let peer = Some (n_of_int (bucket "127.0.0.1")) in
+  let zb = z_of_int burst in
+  let st = ref (pco_init (if glob then Some zb else None)) in
+  let all_evs = ref [] in
+  let tok s a = int_of_z (pco_tok zb s (n_of_int (bucket a))) in
+  let gtok s = match s.pco_g with Some g -> int_of_z g | None -> 0 in
+  let rs = List.mapi (fun _ o ->
+    let (k, ci) = match String.split_on_char '@' o with [k; i] -> (k, int_of_string i) | _ -> failwith "bad op" in
+    let (l, _) = split_cl cls.(ci) in
+    let ca = client_addr cls.(ci) in
+    let client = match ca with Some a -> Some (n_of_int (bucket a)) | None -> None in
+    let kind = if k = "M" then PcoMiss else PcoHit in
+    let req = PcoReq (listener l, peer, client, kind) in
+    let (s1, res) = pco_run false zb !st [req] in
+    let answered = (match res with [PcoAnswered _] -> true | _ -> false) in
+    let evs = if k = "W" && answered then [req; PcoRefresh client] else [req] in
+    let (s2, _) = pco_run false zb !st evs in
+    ignore s1;
+    let c0 = (match ca with Some a -> tok !st a | None -> 0) and c1 = (match ca with Some a -> tok s2 a | None -> 0) in
+    let p0 = tok !st "127.0.0.1" and p1 = tok s2 "127.0.0.1" in
+    let g0 = gtok !st and g1 = gtok s2 in
+    st := s2; all_evs := !all_evs @ evs;
+    let ans = match res with
+      | [PcoAnswered PcoHit] -> "A" | [PcoAnswered PcoMiss] -> "B"
+      | [PcoRefused] -> (match listener l with PcoUdp -> "R5" | PcoHttp -> "E:http-503" | _ -> "E:no-response")
+      | _ -> "E:no-response" in
+    let up = if not answered then 0 else if k = "H" then 0 else 1 in
+    Printf.sprintf "%s:%s:%s:%s:%d" ans
+      (match ca with Some _ -> string_of_int (c0 - c1) | None -> "-")
+      (match ca with Some "127.0.0.1" -> "=" | _ -> string_of_int (p0 - p1))
+      (if glob then string_of_int (g0 - g1) else "-") up) (String.split_on_char ',' (fld f "ops")) in
+  let toks = List.map (fun (a, _) -> Printf.sprintf "%s:%d" a (burst - tok !st a)) !ids
+             @ (if glob then [Printf.sprintf "global:%d" (burst - gtok !st)] else []) in
+  (* spec: refresh-free run and cost formula on this very run *)
+  let reqs = List.filter (fun e -> match e with PcoReq _ -> true | _ -> false) !all_evs in
+  let (sf, _) = pco_run false zb (pco_init (if glob then Some zb else None)) reqs in
+  let same = List.for_all (fun (a, _) -> tok sf a = tok !st a) !ids && gtok sf = gtok !st in
+  let formula = List.for_all (fun (a, i) ->
+    let t = int_of_z (pco_total (n_of_int i) !all_evs) in t > burst || tok !st a = burst - t) !ids in
+  Printf.sprintf "r=%s tok=%s || spec=%s" (String.concat "," rs) (String.concat "," toks)
+    (if not same then "FAIL:buckets-depend-on-refreshes" else if not formula then "FAIL:bucket-is-not-burst-minus-own-cost" else "ok")
+
+let () = register "prefetchcost" run_prefetchcost
